@@ -56,6 +56,21 @@ def run(F, ck, tier):
                           src=['F:CircuitBuilder.copy_constraints', 'F:CopyConstraint.pair'], ctx={'loop': ['F:CircuitBuilder.copy_constraints'], 'uncond': True}, whole=True,
                           why='every copy constraint is merged into the forest'))
     E.check('R02.6', dict(id='sigma.polys', fn='CircuitBuilder::sigma_vecs', crate='plonky2', kind='ret', src=['c:get_sigma_polys', 'c:wire_partition', 'p:k_is', 'p:subgroup'], why='sigma polynomials come from the partition'))
+    # R02.9 range / split gadgets look at every limb of every BaseSumGate they add
+    ck.rule('R02.9', 'split_le (and hence range_check) walks the WHOLE limb range of each BaseSumGate it adds: limbs that are neither returned nor visited cannot be asserted zero, so the sum wire is not range-limited')
+    sl = [f for f in F.find('CircuitBuilder::split_le', crate='plonky2') if f.file.endswith('gadgets/split_join.rs')]
+    if len(sl) != 1:
+        ck.ob('R02.9', 'anchor', False, 'ANCHOR-MISSING CircuitBuilder::split_le')
+    else:
+        loops_ = [n for n in walk(sl[0].body) if n.get('k') == 'For' and any(x.get('k') == 'MCall' and x.get('n') == 'limbs' for x in walk(n['it']))]
+        bad = []
+        for lp in loops_:
+            bad += ob.is_partial_iter(lp['it'])
+        ck.ob('R02.9', 'split_le.limbs-whole', bool(loops_) and not bad, 'every limb of each gate is visited' if loops_ and not bad else
+              ('split_le iterates a truncated limb range (%s): the skipped limbs are never asserted zero and range_check(x, n) accepts values above 2^n' % ','.join(bad)) if loops_ else
+              'split_le no longer iterates over BaseSumGate::limbs() in a recognisable form', (loops_[0].get('s') if loops_ else '%s:%d' % (sl[0].file, sl[0].line)))
+        az = any(x.get('k') == 'MCall' and x.get('n') == 'assert_zero' for x in walk(sl[0].body))
+        ck.ob('R02.9', 'split_le.unused-limbs-zero', az, 'unused limbs are asserted zero' if az else 'split_le no longer asserts the unused limbs to be zero')
     # R02.8 routable boundary
     ck.rule('R02.8', 'Wire::is_routable holds exactly for columns below num_routed_wires (the columns that have a sigma polynomial): the comparison is normalised algebraically, so equivalent spellings pass')
     routable_boundary(F, ck)
